@@ -141,8 +141,10 @@ fn transform(r: &mut Rng, p0: &Prog) -> Variant {
         });
         what.push("clauses repeated");
     }
-    if r.chance(1, 3) && !p.rules.is_empty() {
-        let k = r.usize(p.rules.len());
+    // only a rule whose name has a single definition can be compared with its duplicate
+    let unique: Vec<usize> = (0..p.rules.len()).filter(|i| p.rules.iter().filter(|x| x.name == p.rules[*i].name).count() == 1).collect();
+    if r.chance(1, 3) && !unique.is_empty() {
+        let k = unique[r.usize(unique.len())];
         let mut d = p.rules[k].clone();
         let orig = d.name.clone();
         d.name = format!("{}_dup", orig);
@@ -291,6 +293,36 @@ fn gen_c04(r: &mut Rng) -> (J, Prog) {
                 let at = r.usize(p.rules[i].body.lines.len() + 1);
                 p.rules[i].body.lines.insert(at, Line { alts: vec![c] });
             }
+        }
+    }
+    // the documented idiom "one name, several definitions with mutually exclusive guards":
+    // exactly one definition can be non-SKIP, so the named status is order independent
+    if r.chance(1, 3) && !p.rules.is_empty() {
+        let key = match &d {
+            J::Map(kv) if !kv.is_empty() && r.chance(2, 3) => kv[r.usize(kv.len())].0.clone(),
+            _ => "zz_not_there".to_string(),
+        };
+        let guard = |neg: bool| Line { alts: vec![Clause::Cmp(Cmp { not: false, q: Query { some: false, parts: vec![Part::Key(key.clone())] }, op: Op::Exists, opnot: neg, rhs: None, msg: None })] };
+        let k = r.usize(p.rules.len());
+        let donor = r.usize(p.rules.len());
+        let mut second = p.rules[donor].clone();
+        second.name = p.rules[k].name.clone();
+        second.when = vec![guard(true)];
+        // the donor's body may refer to rules defined later; keep only plain clauses
+        second.body.lines.retain(|l| l.alts.iter().all(|c| !matches!(c, Clause::Ref { .. })));
+        if second.body.lines.is_empty() {
+            second.body.lines.push(guard(true));
+        }
+        let n_name = p.rules[k].name.clone();
+        p.rules[k].when.insert(0, guard(false));
+        let at = r.usize(p.rules.len() + 1);
+        p.rules.insert(at, second);
+        // and a user of that name somewhere (a reference cycle, if one arises, is an
+        // evaluation error in every order and is skipped by the proviso)
+        let users: Vec<usize> = (0..p.rules.len()).filter(|i| p.rules[*i].name != n_name).collect();
+        if !users.is_empty() {
+            let u = users[r.usize(users.len())];
+            p.rules[u].body.lines.push(Line { alts: vec![Clause::Ref { not: r.chance(1, 4), name: n_name, msg: None }] });
         }
     }
     (d, p)
@@ -538,6 +570,14 @@ fn make_var_heavy(r: &mut Rng, p: &mut Prog, d: &J) {
             p.rules[k].body.lines.insert(at, Line { alts: vec![c] });
         }
     }
+    // single-clause probe rules for some file-level variables (verdict-level observability)
+    for (i, v) in file_vars.iter().enumerate() {
+        if r.chance(1, 3) {
+            let c1 = var_clause(v, r);
+            let c2 = var_clause(v, r);
+            p.rules.push(Rule { name: format!("probe_v{}", i), when: vec![], body: Body { lets: vec![], lines: vec![Line { alts: vec![c1] }, Line { alts: vec![c2] }] } });
+        }
+    }
     // rule-level and block-level variables referenced twice
     for k in 0..nrules {
         let kk = key(r);
@@ -554,12 +594,86 @@ fn make_var_heavy(r: &mut Rng, p: &mut Prog, d: &J) {
                 let mut parts = vec![Part::Key(ck.clone())];
                 parts.push(if matches!(cv, J::List(_)) { Part::AllIdx } else { Part::Star });
                 let bname = format!("bv{}", k);
-                let body = Body {
-                    lets: vec![Let { name: bname.clone(), val: Arg::Query(Query { some: false, parts: vec![Part::This] }) }],
-                    lines: vec![Line { alts: vec![var_clause(&bname, r)] }, Line { alts: vec![var_clause(&bname, r), var_clause(&name, r)] }],
+                // block-level variable: query-valued, function-valued, or both; the function
+                // result differs from element to element and a clause depends on it
+                let first_elem_text = match cv {
+                    J::List(xs) => xs.iter().find_map(|x| if let J::Str(s) = x { Some(s.clone()) } else { None }),
+                    J::Map(m) => m.iter().find_map(|(_, x)| if let J::Str(s) = x { Some(s.clone()) } else { None }),
+                    _ => None,
                 };
-                if r.chance(1, 2) {
+                let fname = format!("bf{}", k);
+                let mut blets = Vec::new();
+                let mut blines = Vec::new();
+                let kind = r.below(3);
+                if kind != 1 {
+                    blets.push(Let { name: bname.clone(), val: Arg::Query(Query { some: false, parts: vec![Part::This] }) });
+                    blines.push(Line { alts: vec![var_clause(&bname, r)] });
+                    blines.push(Line { alts: vec![var_clause(&bname, r), var_clause(&name, r)] });
+                }
+                if kind != 0 {
+                    let fun = *r.pick(&["to_upper", "to_lower", "parse_string"]);
+                    blets.push(Let { name: fname.clone(), val: Arg::Func(Box::new(Func { name: fun.into(), args: vec![Arg::Query(Query { some: false, parts: vec![Part::This] })] })) });
+                    let lit = match (&first_elem_text, fun) {
+                        (Some(t), "to_upper") if doc::is_guard_literal_safe(&J::Str(t.to_uppercase())) => J::Str(t.to_uppercase()),
+                        (Some(t), "to_lower") if doc::is_guard_literal_safe(&J::Str(t.to_lowercase())) => J::Str(t.to_lowercase()),
+                        (Some(t), _) if doc::is_guard_literal_safe(&J::Str(t.clone())) => J::Str(t.clone()),
+                        _ => J::Str("X".into()),
+                    };
+                    blines.push(Line { alts: vec![Clause::Cmp(Cmp { not: false, q: Query { some: false, parts: vec![Part::Var(fname.clone())] }, op: Op::Eq, opnot: r.chance(1, 3), rhs: Some(rules::Rhs::Lit(lit)), msg: None })] });
+                    blines.push(Line { alts: vec![var_clause(&fname, r)] });
+                }
+                let body = Body { lets: blets, lines: blines };
+                if r.chance(2, 3) {
                     p.rules[k].body.lines.push(Line { alts: vec![Clause::Block { q: Query { some: false, parts }, not_empty: false, body }] });
+                }
+            }
+        }
+    }
+    // a block over several records whose function-valued variable differs from record to
+    // record (the document carries a `recs` list for this purpose)
+    if let J::Map(kv) = d {
+        if let Some((_, J::List(recs))) = kv.iter().find(|(k, _)| k == "recs") {
+            let names: Vec<String> = recs.iter().filter_map(|x| if let J::Map(m) = x { m.iter().find(|(k, _)| k == "name").and_then(|(_, v)| if let J::Str(s) = v { Some(s.clone()) } else { None }) } else { None }).collect();
+            if names.len() >= 2 && nrules > 0 {
+                let k = r.usize(nrules);
+                let fun = *r.pick(&["to_upper", "to_lower", "regex_replace", "substring", "url_decode", "parse_string"]);
+                let arg = Arg::Query(Query { some: false, parts: vec![Part::Key("name".into())] });
+                let args = match fun {
+                    "regex_replace" => vec![arg, Arg::Lit(J::Str("a".into())), Arg::Lit(J::Str("_".into()))],
+                    "substring" => vec![arg, Arg::Lit(J::Int(0)), Arg::Lit(J::Int(2))],
+                    _ => vec![arg],
+                };
+                let expect = |s: &str| -> String {
+                    match fun {
+                        "to_upper" => s.to_uppercase(),
+                        "to_lower" => s.to_lowercase(),
+                        "regex_replace" => s.replace('a', "_"),
+                        "substring" => s.chars().take(2).collect(),
+                        _ => s.to_string(),
+                    }
+                };
+                let which = r.usize(names.len());
+                let mut blets = vec![Let { name: "rf".into(), val: Arg::Func(Box::new(Func { name: fun.into(), args })) }];
+                if r.chance(1, 3) {
+                    // an extra query-bound variable in the same block
+                    blets.insert(0, Let { name: "rq".into(), val: Arg::Query(Query { some: false, parts: vec![Part::Key("n".into())] }) });
+                }
+                let mut blines = vec![Line { alts: vec![Clause::Cmp(Cmp { not: false, q: Query { some: false, parts: vec![Part::Var("rf".into())] }, op: Op::Eq, opnot: r.chance(1, 3), rhs: Some(rules::Rhs::Lit(J::Str(expect(&names[which])))), msg: None })] }];
+                if r.chance(1, 2) {
+                    blines.push(Line { alts: vec![var_clause("rf", r)] });
+                }
+                if blets.len() > 1 {
+                    blines.push(Line { alts: vec![var_clause("rq", r)] });
+                }
+                let q = Query { some: r.chance(1, 4), parts: vec![Part::Key("recs".into()), Part::AllIdx] };
+                let block = Clause::Block { q, not_empty: false, body: Body { lets: blets, lines: blines } };
+                if r.chance(2, 3) {
+                    // a dedicated probe rule: its status is the block's status, so a wrong
+                    // value is visible at verdict level and not masked by other clauses
+                    p.rules.push(Rule { name: "probe_block".into(), when: vec![], body: Body { lets: vec![], lines: vec![Line { alts: vec![block] }] } });
+                } else {
+                    let at = r.usize(p.rules[k].body.lines.len() + 1);
+                    p.rules[k].body.lines.insert(at, Line { alts: vec![block] });
                 }
             }
         }
@@ -617,7 +731,18 @@ impl Check for C15 {
         let mut rep = Report::new(n);
         let seed = derive(base_seed, "C15", n);
         let mut r = Rng::stream(seed, "workload");
-        let d = doc::gen_doc(&mut r);
+        let mut d = doc::gen_doc(&mut r);
+        if r.chance(2, 3) {
+            // records with distinct names, for block-level function variables
+            let pool = ["alpha", "beta", "Gamma", "a%20b", "data", "banana"];
+            let n = 2 + r.usize(2);
+            let mut idx = r.perm(pool.len());
+            idx.truncate(n);
+            let recs: Vec<J> = idx.iter().enumerate().map(|(i, k)| J::Map(vec![("name".into(), J::Str(pool[*k].into())), ("n".into(), J::Int(i as i64))])).collect();
+            if let J::Map(kv) = &mut d {
+                kv.push(("recs".into(), J::List(recs)));
+            }
+        }
         let o = GenOpts { captures: false, functions: true, allow_now: false, default_clauses: false, max_rules: 4, prules: false, ..Default::default() };
         let mut p = rules::gen_prog(&mut r, &d, &o);
         make_var_heavy(&mut r, &mut p, &d);
